@@ -419,6 +419,8 @@ impl OsIpcSender {
         let (dedicated_tx, dedicated_rx) = channel()?;
         // Extract FD handle without consuming the Receiver, so the FD doesn't get closed.
         fds.push(dedicated_rx.fd.get());
+        // We only need our copy of the receive end until the first fragment has carried it over.
+        let mut dedicated_rx = Some(dedicated_rx);
 
         // Split up the packet into fragments.
         let mut byte_position = 0;
@@ -454,6 +456,12 @@ impl OsIpcSender {
             }
 
             byte_position = end_byte_position;
+
+            // The first fragment is out, so the receiver now holds the receive end
+            // of the dedicated channel. Close our own copy: otherwise the followup sends
+            // would block forever rather than fail if the receiver goes away before
+            // having read the whole message, as the channel would still have a (never reading) peer.
+            dedicated_rx.take();
         }
 
         Ok(())
